@@ -408,8 +408,9 @@ type rtOpts struct {
 	Judge    bool // compare contents (false: the message is outside the wire domain - only "no panic" and byte counts)
 	Chunk    int  // reader piece size
 	Patterns map[string]bool
-	// key/clause overrides for the enumeration workload
-	KeyEncodeErr, KeyOther string
+	// finding-key overrides of the enumeration workload: KeyEncodeErr for a refused encode, KeyOther for a refused decode
+	// and for a difference at the field path EnumPath (differences elsewhere keep their ordinary key)
+	KeyEncodeErr, KeyOther, EnumPath string
 }
 
 // roundTrip sends one message through both codecs: EncodeTo into a counting writer, DecodeFrom out of a counting reader,
@@ -463,7 +464,7 @@ func roundTrip(m message.Message, o rtOpts) (rtStats, *failure) {
 		stt.Skipped += sk
 		if df != nil {
 			key := "roundtrip:" + cd.Name + ":" + tn + ":" + df.Pattern
-			if o.KeyOther != "" {
+			if o.KeyOther != "" && df.Path == o.EnumPath {
 				key = o.KeyOther
 			}
 			return stt, &failure{"decode(encode(m)) differs from canon(m) under " + cd.Name + " at " + tn + "." + df.Pattern, key,
@@ -475,9 +476,6 @@ func roundTrip(m message.Message, o rtOpts) (rtStats, *failure) {
 		df, _, _ := canonEqual(decoded["protobuf"], decoded["json"], true, nil)
 		if df != nil {
 			key := "pb-json-differ:" + tn + ":" + df.Pattern
-			if o.KeyOther != "" {
-				key = o.KeyOther
-			}
 			return stt, &failure{"the protobuf-decoded and the JSON-decoded message differ at " + tn + "." + df.Pattern, key,
 				map[string]any{"diff_want_is_protobuf_got_is_json": df, "message": render(m)}}
 		}
